@@ -9,7 +9,7 @@ one() {
   git -C /repo archive HEAD | tar -x -C "$W"
   if ! (cd "$W" && patch -p1 -s < "$D/patch.diff") >/dev/null 2>&1; then echo "$N: PATCH DOES NOT APPLY"; rm -rf "$W"; return; fi
   R=""
-  for p in C01 C02 C03 C04 C05 C06 C07 C08 C09 C11 C12 C15 C10 C13 C14 C16 C18 C19; do
+  for p in C01 C02 C03 C04 C05 C06 C07 C08 C09 C11 C12 C15 C10 C13 C14 C16 C17 C18 C19; do
     out=$(CBV_REPO="$W" /verif/check $p 2>&1)
     if echo "$out" | grep -q "^VIOLATION"; then R="$R,$p"; fi
   done
